@@ -273,3 +273,292 @@ pub fn configs(tier: crate::registry::Tier, seed: u64) -> Vec<crate::registry::E
     }
     v
 }
+
+// =================================================================================== C03
+
+pub struct Coefficients {
+    pub name: &'static str,
+    pub pd: Pd,
+    pub mirror: bool,
+    pub reduced: bool,
+    pub bound: i64,
+}
+
+fn bigraded_table<R>(b: &yui_kh::kh::KhHomologyBigraded<R>) -> BTreeMap<(isize, isize), (usize, usize)>
+where
+    R: EucRing,
+    for<'x> &'x R: EucRingOps<R>,
+{
+    let mut f = BTreeMap::new();
+    for idx in b.support() {
+        let s = &b[(idx.0, idx.1)];
+        if s.rank() > 0 || !s.tors().is_empty() {
+            f.insert((idx.0, idx.1), (s.rank(), s.tors().len()));
+        }
+    }
+    f
+}
+
+impl Harness for Coefficients {
+    fn id(&self) -> String {
+        format!("coefficients/{}{}{}/htB{}", self.name, if self.mirror { "-mirror" } else { "" }, if self.reduced { "/reduced" } else { "" }, self.bound)
+    }
+    fn functions(&self) -> Vec<&'static str> {
+        vec!["KhHomology::<Z>::new, KhHomology::<Ratio<Z>>::new (both over the symbolic scalar)", "KhHomology::<FF2>::new, KhHomology::<FF<3>>::new at the class's residues", "KhHomology::into_bigraded / KhComplexBigraded::homology",
+             "yui::Ratio arithmetic (generic over the symbolic integer)"]
+    }
+    fn inputs(&self) -> Vec<InputSpec> {
+        if self.reduced { vec![InputSpec::boxed("h", self.bound)] } else { vec![InputSpec::boxed("h", self.bound), InputSpec::boxed("t", self.bound)] }
+    }
+    fn body<I: VInt>(&self, xs: &[I])
+    where
+        for<'x> &'x I: VIntOps<I>,
+    {
+        let (h, t) = if self.reduced { (xs[0].clone(), I::zero()) } else { (xs[0].clone(), xs[1].clone()) };
+        let l = link_of(&self.pd, self.mirror);
+        let sz = lib_signature(&l, &h, &t, self.reduced);
+        // ---- Q
+        let (hq, tq) = (Ratio::from(h.clone()), Ratio::from(t.clone()));
+        let sq = lib_signature::<Ratio<I>>(&l, &hq, &tq, self.reduced);
+        let fz: BTreeMap<isize, usize> = sz.iter().filter(|s| s.1 > 0).map(|s| (s.0, s.1)).collect();
+        let fq: BTreeMap<isize, usize> = sq.iter().filter(|s| s.1 > 0).map(|s| (s.0, s.1)).collect();
+        I::oblige(&format!("rank over Q = free rank over Z: {:?} vs {:?}", fq, fz), VF::of_bool(fq == fz));
+        I::oblige("no torsion over a field", VF::of_bool(sq.iter().all(|s| s.2.is_empty())));
+        // ---- F_p at the residues of this class (h mod 6, t mod 6 are pinned: sound narrowing)
+        let six = I::lit(6);
+        let res = |x: &I| -> i64 {
+            let r = (x % &six).to_i64().unwrap();
+            r.rem_euclid(6)
+        };
+        let (rh, rt) = (res(&h), res(&t));
+        let tors_div = |i: isize, p: i64| -> usize {
+            sz.iter().filter(|s| s.0 == i).map(|s| s.2.iter().filter(|a| (*a % &I::lit(p)).is_zero()).count()).sum()
+        };
+        let rank_z = |i: isize| -> usize { sz.iter().filter(|s| s.0 == i).map(|s| s.1).sum() };
+        {
+            let (h2, t2) = (FF2::from(rh), FF2::from(rt));
+            let s2 = lib_signature::<FF2>(&l, &h2, &t2, self.reduced);
+            let mut degs: std::collections::BTreeSet<isize> = sz.iter().map(|s| s.0).collect();
+            degs.extend(s2.iter().map(|s| s.0));
+            degs.extend(sz.iter().map(|s| s.0 - 1));
+            for i in degs {
+                let want = rank_z(i) + tors_div(i, 2) + tors_div(i + 1, 2);
+                let got: usize = s2.iter().filter(|s| s.0 == i).map(|s| s.1).sum();
+                I::oblige(&format!("dim over F2 in degree {} = rank + 2-torsion(i) + 2-torsion(i+1): got {}, want {}", i, got, want), VF::of_bool(got == want));
+            }
+        }
+        {
+            let (h3, t3) = (FF::<3>::new(rh as i32), FF::<3>::new(rt as i32));
+            let s3 = lib_signature::<FF<3>>(&l, &h3, &t3, self.reduced);
+            let mut degs: std::collections::BTreeSet<isize> = sz.iter().map(|s| s.0).collect();
+            degs.extend(s3.iter().map(|s| s.0));
+            degs.extend(sz.iter().map(|s| s.0 - 1));
+            for i in degs {
+                let want = rank_z(i) + tors_div(i, 3) + tors_div(i + 1, 3);
+                let got: usize = s3.iter().filter(|s| s.0 == i).map(|s| s.1).sum();
+                I::oblige(&format!("dim over F3 in degree {} = rank + 3-torsion(i) + 3-torsion(i+1): got {}, want {}", i, got, want), VF::of_bool(got == want));
+            }
+        }
+        // ---- on the class h = t = 0: the two routes to a bigraded table, and the F2 reduced/unreduced relation
+        if h.is_zero() && t.is_zero() {
+            let a = bigraded_table(&KhHomology::new(&l, &h, &t, self.reduced).into_bigraded());
+            let b = bigraded_table(&KhComplexBigraded::new(&l, &h, &t, self.reduced).homology());
+            I::oblige(&format!("bigraded routes agree over Z: {:?} vs {:?}", a, b), VF::of_bool(a == b));
+            let aq = bigraded_table::<Ratio<I>>(&KhHomology::<Ratio<I>>::new(&l, &hq, &tq, self.reduced).into_bigraded());
+            let fa: BTreeMap<(isize, isize), usize> = a.iter().filter(|(_, v)| v.0 > 0).map(|(k, v)| (*k, v.0)).collect();
+            let fq2: BTreeMap<(isize, isize), usize> = aq.iter().filter(|(_, v)| v.0 > 0).map(|(k, v)| (*k, v.0)).collect();
+            I::oblige(&format!("bigraded Q ranks = bigraded Z free ranks: {:?} vs {:?}", fq2, fa), VF::of_bool(fa == fq2));
+            if !self.reduced && l.is_knot() {
+                let z2 = FF2::from(0);
+                let u = bigraded_table::<FF2>(&KhHomology::<FF2>::new(&l, &z2, &z2, false).into_bigraded());
+                let r = bigraded_table::<FF2>(&KhHomology::<FF2>::new(&l, &z2, &z2, true).into_bigraded());
+                let mut want: BTreeMap<(isize, isize), usize> = BTreeMap::new();
+                for (k, v) in &r {
+                    *want.entry((k.0, k.1 - 1)).or_default() += v.0;
+                    *want.entry((k.0, k.1 + 1)).or_default() += v.0;
+                }
+                let got: BTreeMap<(isize, isize), usize> = u.iter().map(|(k, v)| (*k, v.0)).collect();
+                I::oblige(&format!("F2: unreduced(i,j) = red(i,j-1) + red(i,j+1): {:?} vs {:?}", got, want), VF::of_bool(got == want));
+            }
+        }
+    }
+}
+
+pub fn configs_c03(tier: crate::registry::Tier, _seed: u64) -> Vec<crate::registry::Entry> {
+    use crate::registry::{entry, Tier};
+    let th = tier == Tier::Thorough;
+    let mut v = Vec::new();
+    for (name, pd) in khref::catalogue() {
+        if pd.len() > 3 && !th {
+            continue;
+        }
+        for mirror in [false, true] {
+            v.push(entry(Coefficients { name, pd: pd.clone(), mirror, reduced: false, bound: if th { 3 } else { 2 } }, 100, if th { 1800.0 } else { 240.0 }));
+            if name != "hopf" {
+                v.push(entry(Coefficients { name, pd: pd.clone(), mirror, reduced: true, bound: if th { 6 } else { 4 } }, 100, if th { 1800.0 } else { 240.0 }));
+            }
+        }
+    }
+    v
+}
+
+// =================================================================================== C06
+
+#[derive(Clone, Copy, Debug, PartialEq)]
+pub enum LeeMode {
+    /// canonical cycles: h_deg 0, d z = 0, non-torsion class for h != 0 (t = 0, h symbolic)
+    CanonCycles,
+    /// ss_invariant(l, c, reduced) with symbolic prime c: diagram pairs, reduced = unreduced, mirror negation
+    SsPairs,
+    /// ss(K-) <= ss(K+) <= ss(K-) + 2 for every positive crossing switched
+    SsCrossingChange,
+    /// (h,t) = (1,0) over Z and (0,1) over Q: free of total rank 2^components
+    LeeRank,
+}
+
+pub struct Lee {
+    pub name: String,
+    pub a: Pd,
+    pub b: Pd,
+    pub mode: LeeMode,
+    pub reduced: bool,
+    pub bound: i64,
+}
+
+/// PD code with crossing k switched (over <-> under), keeping the orientation of all strands
+fn switch_crossing(pd: &Pd, k: usize) -> Option<(Pd, bool)> {
+    let dirs = edge_directions(pd)?;
+    let x = pd[k];
+    // which over slot is incoming?
+    let in1 = dirs[&x[1]].1 == (k, 1) || (x[1] == x[3] && false);
+    let positive = !in1; // incoming at slot 3 <=> positive
+    // new under strand = old over strand: it enters at slot 1 (negative) or 3 (positive); rotate so that it sits at slot 0
+    let nx = if in1 { [x[1], x[2], x[3], x[0]] } else { [x[3], x[0], x[1], x[2]] };
+    let mut out = pd.clone();
+    out[k] = nx;
+    Some((out, positive))
+}
+
+impl Harness for Lee {
+    fn id(&self) -> String {
+        format!("lee/{:?}/{}{}/B{}", self.mode, self.name, if self.reduced { "/reduced" } else { "" }, self.bound)
+    }
+    fn functions(&self) -> Vec<&'static str> {
+        vec!["yui_kh::kh::ss_invariant / compute_div", "KhComplex::canon_cycles (builder: make_canon_cycles)", "KhHomology::{new,truncated}", "Summand::vectorize_euc", "misc::div_vec", "Link::{writhe,seifert_circles,is_knot}"]
+    }
+    fn inputs(&self) -> Vec<InputSpec> {
+        match self.mode {
+            LeeMode::CanonCycles => vec![InputSpec::boxed("h", self.bound)],
+            LeeMode::SsPairs | LeeMode::SsCrossingChange => vec![InputSpec::range("c", 2, self.bound)],
+            LeeMode::LeeRank => vec![InputSpec::range("u", 1, 1)],
+        }
+    }
+    fn extra_smt(&self) -> Vec<String> {
+        match self.mode {
+            LeeMode::SsPairs | LeeMode::SsCrossingChange => vec!["(or (= c 2) (= c 3) (= c 5) (= c 7))".into()],
+            _ => vec![],
+        }
+    }
+    fn extra_ok(&self, xs: &[BigInt]) -> bool {
+        match self.mode {
+            LeeMode::SsPairs | LeeMode::SsCrossingChange => [2, 3, 5, 7].iter().any(|p| xs[0] == BigInt::from(*p)),
+            _ => true,
+        }
+    }
+    fn body<I: VInt>(&self, xs: &[I])
+    where
+        for<'x> &'x I: VIntOps<I>,
+    {
+        let la = link_of(&self.a, false);
+        match self.mode {
+            LeeMode::CanonCycles => {
+                let h = xs[0].clone();
+                let t = I::zero();
+                let c = KhComplex::<I>::new(&la, &h, &t, self.reduced);
+                let zs = c.canon_cycles().clone();
+                I::oblige("number of canonical cycles", VF::of_bool(zs.len() == if self.reduced { 1 } else { 2 }));
+                for (k, z) in zs.iter().enumerate() {
+                    I::oblige(&format!("canonical cycle {} has h-degree 0", k), VF::of_bool(z.gens().all(|x| x.h_deg() == 0)));
+                    let dz = c.d(0, z);
+                    for (_, a) in dz.iter() {
+                        I::oblige(&format!("d(canonical cycle {}) = 0", k), VF::zero(a.clone()));
+                    }
+                }
+                // non-torsion classes when h != 0: coordinates on the free part of Kh[0] are not all zero
+                if !h.is_zero() {
+                    let kh = c.homology();
+                    let r = kh[0].rank();
+                    for (k, z) in zs.iter().enumerate() {
+                        let v = kh[0].vectorize_euc(z).subvec(0..r).to_dense();
+                        I::oblige(&format!("class of canonical cycle {} is non-torsion", k), VF::Or(v.into_iter().map(VF::nonzero).collect()));
+                    }
+                }
+            }
+            LeeMode::LeeRank => {
+                let comps = la.components().len();
+                let (one, zero) = (xs[0].clone(), I::zero());
+                let s = lib_signature(&la, &one, &zero, false);
+                I::oblige("(h,t)=(1,0) over Z: torsion free", VF::of_bool(s.iter().all(|x| x.2.is_empty())));
+                I::oblige("(h,t)=(1,0) over Z: total rank 2^components", VF::of_bool(s.iter().map(|x| x.1).sum::<usize>() == 1 << comps));
+                let (q1, q0) = (Ratio::from(one.clone()), Ratio::from(zero.clone()));
+                let s = lib_signature::<Ratio<I>>(&la, &q0, &q1, false);
+                I::oblige("(h,t)=(0,1) over Q: total rank 2^components", VF::of_bool(s.iter().map(|x| x.1).sum::<usize>() == 1 << comps));
+            }
+            LeeMode::SsPairs => {
+                let c = xs[0].clone();
+                let lb = link_of(&self.b, false);
+                let sa = ss_invariant(&la, &c, false);
+                let sa_r = ss_invariant(&la, &c, true);
+                let sb = ss_invariant(&lb, &c, false);
+                let sm = ss_invariant(&la.mirror(), &c, false);
+                I::oblige(&format!("ss equal on both diagrams ({} vs {})", sa, sb), VF::of_bool(sa == sb));
+                I::oblige(&format!("ss reduced = unreduced ({} vs {})", sa_r, sa), VF::of_bool(sa == sa_r));
+                I::oblige(&format!("ss(mirror) = -ss ({} vs {})", sm, sa), VF::of_bool(sm == -sa));
+            }
+            LeeMode::SsCrossingChange => {
+                let c = xs[0].clone();
+                let s0 = ss_invariant(&la, &c, self.reduced);
+                for k in 0..self.a.len() {
+                    let Some((sw, positive)) = switch_crossing(&self.a, k) else {
+                        I::oblige("crossing switch possible", VF::False);
+                        continue;
+                    };
+                    let s1 = ss_invariant(&link_of(&sw, false), &c, self.reduced);
+                    // K+ has the positive crossing
+                    let (plus, minus) = if positive { (s0, s1) } else { (s1, s0) };
+                    I::oblige(&format!("ss(K-) <= ss(K+) <= ss(K-)+2 at crossing {} (K+ {}, K- {})", k, plus, minus), VF::of_bool(minus <= plus && plus <= minus + 2));
+                }
+            }
+        }
+    }
+}
+
+pub fn configs_c06(tier: crate::registry::Tier, seed: u64) -> Vec<crate::registry::Entry> {
+    use crate::registry::{entry, Tier};
+    let th = tier == Tier::Thorough;
+    let mut v = Vec::new();
+    let knots: Vec<(&str, Pd)> = khref::catalogue().into_iter().filter(|(n, p)| *n != "hopf" && (th || p.len() <= 3)).collect();
+    for (name, pd) in &knots {
+        for reduced in [false, true] {
+            v.push(entry(Lee { name: name.to_string(), a: pd.clone(), b: vec![], mode: LeeMode::CanonCycles, reduced, bound: if th { 5 } else { 3 } }, 100, 240.0));
+        }
+    }
+    for (name, pd) in khref::catalogue() {
+        if pd.len() > 3 && !th {
+            continue;
+        }
+        v.push(entry(Lee { name: name.to_string(), a: pd.clone(), b: vec![], mode: LeeMode::LeeRank, reduced: false, bound: 1 }, 10, 120.0));
+    }
+    for (name, a, b, knot) in move_pairs(th, seed) {
+        if !knot || (!th && a.len().max(b.len()) > 4) {
+            continue;
+        }
+        v.push(entry(Lee { name, a, b, mode: LeeMode::SsPairs, reduced: false, bound: 7 }, 20, if th { 1800.0 } else { 240.0 }));
+    }
+    for (name, pd) in &knots {
+        for reduced in [false, true] {
+            v.push(entry(Lee { name: name.to_string(), a: pd.clone(), b: vec![], mode: LeeMode::SsCrossingChange, reduced, bound: 7 }, 20, if th { 1800.0 } else { 240.0 }));
+        }
+    }
+    v
+}
